@@ -516,5 +516,36 @@ Proof.
       subst i. cbn [count_max].
       destruct (single_match cfg src pat (s0 + 0) p ep') eqn:E; [apply single_match_lt in E; lia|lia]. }
     apply max_down_stable; lia.
-  - intros n call caps ep p s1 Hs Hn. apply min_up_stable; [intros x; apply single_match_lt| |]; unfold slen_, slen; lia.
+  - intros n call caps ep p s1 Hs Hn. apply (min_up_stable src); [intros x; apply single_match_lt| |]; unfold slen_, slen; lia.
+Qed.
+
+Lemma class_end_range pat p ep : 0 <= p < plen pat -> class_end pat p = Some ep -> p < ep <= plen pat.
+Proof. intros H E. split; [exact (class_end_gt pat p ep E)|exact (class_end_le pat p ep H E)]. Qed.
+
+Lemma balance_range src f s b e cont s' : balance_loop src f s b e cont = Some s' -> s < s' <= slen_ src.
+Proof. intros E. split; [exact (balance_ge src f s b e cont s' E)|exact (balance_le src f s b e cont s' E)]. Qed.
+
+(* ------------------------------------------------------------------ string.find with plain = true *)
+(* memory.find as StrPatt.match uses it: the FIRST occurrence at or after pos (what lstrlib.c's lmemfind returns),
+   and no occurrence in the scanned range when it reports none *)
+Lemma plain_find_first s pat : forall k pos st, plain_find k s pat pos = Some st ->
+  pos <= st <= pos + Z.of_nat k /\ is_prefix pat (skipn (Z.to_nat st) s) = true /\
+  forall j, pos <= j < st -> is_prefix pat (skipn (Z.to_nat j) s) = false.
+Proof.
+  induction k as [|k IH]; intros pos st; cbn [plain_find];
+    destruct (is_prefix pat (skipn (Z.to_nat pos) s)) eqn:E.
+  - intros H. inversion H. subst. repeat split; try lia. exact E.
+  - discriminate.
+  - intros H. inversion H. subst. repeat split; try lia. exact E.
+  - intros H. apply IH in H. destruct H as (H1 & H2 & H3). repeat split; try lia; [exact H2|].
+    intros j Hj. destruct (Z.eq_dec j pos) as [->|]; [exact E|]. apply H3. lia.
+Qed.
+
+Lemma plain_find_none s pat : forall k pos, plain_find k s pat pos = None ->
+  forall j, pos <= j <= pos + Z.of_nat k -> is_prefix pat (skipn (Z.to_nat j) s) = false.
+Proof.
+  induction k as [|k IH]; intros pos; cbn [plain_find];
+    destruct (is_prefix pat (skipn (Z.to_nat pos) s)) eqn:E; try discriminate.
+  - intros _ j Hj. replace j with pos by lia. exact E.
+  - intros H j Hj. destruct (Z.eq_dec j pos) as [->|]; [exact E|]. apply (IH (pos + 1) H). lia.
 Qed.
